@@ -11,8 +11,10 @@ use duckscript::types::runtime::{Context, StateValue};
 use serde_json::{json, Value};
 use std::collections::BTreeMap;
 
-const POOL: [&str; 16] = [
+const POOL: [&str; 19] = [
     "", "a", "a b", "é😀", "-1", "0", "2.5", "@array", "@map", "@set", "@released", "-r", "a\nb", "x,y", "*.txt", "@ownargs",
+    // the caller has a variable `a`: these are other names
+    " a", "a ", "\u{a0}a",
 ];
 const CONTEXTS: [&str; 5] = ["top-level", "function", "for-body", "three-times", "condition"];
 
@@ -343,7 +345,7 @@ pub fn crash_sig(case: &Value, kind: &str) -> String {
     format!("{}:{}", kind, case["command"].as_str().unwrap_or("?"))
 }
 
-pub const RULE: &str = "commands: every standard-library command whose help carries the 'Show Source' block (that is how script-implemented commands render themselves; discovered at run time, std::net excluded) x every argument tuple up to the arity bound from a 16-value pool {empty, a, 'a b', multi-byte, -1, 0, 2.5, live array/map/set handle, released handle, -r, text with a line break, 'x,y', '*.txt', the name of the variable in which the command itself receives its arguments} x context {top level, inside a user function, inside a for body, three times in a row, as the condition of an if}; the caller's variables are pre-set, including names that resemble the internal names of the command under test (scope::<alias>x::string, scope::<alias>). Oracle: variables after the run equal the variables before it, apart from the output variable and the names given to unset; no scope:: variable is left; every pre-existing collection is unchanged; at most the returned collection is new in the handle table; the run does not fail ('Memory leak detected' is a failure). Scale case: 300 (thorough 3000) rounds of seven script-implemented commands (flat, nested, failing) in one run: afterwards the variables are exactly the script's own and no list equal to the argument list of one of the calls remains in the handle table. The caller's collections name each other (an item of the array is the handle of the set, an item of the set the handle of another array, a key of the map the handle of the array), so a command that releases a working copy together with what its items name destroys a caller's collection";
+pub const RULE: &str = "commands: every standard-library command whose help carries the 'Show Source' block (that is how script-implemented commands render themselves; discovered at run time, std::net excluded) x every argument tuple up to the arity bound from a 19-value pool {empty, a, ' a', 'a ', NBSP+a, 'a b', multi-byte, -1, 0, 2.5, live array/map/set handle, released handle, -r, text with a line break, 'x,y', '*.txt', the name of the variable in which the command itself receives its arguments} x context {top level, inside a user function, inside a for body, three times in a row, as the condition of an if}; the caller's variables are pre-set, including names that resemble the internal names of the command under test (scope::<alias>x::string, scope::<alias>). Oracle: variables after the run equal the variables before it, apart from the output variable and the names given to unset; no scope:: variable is left; every pre-existing collection is unchanged; at most the returned collection is new in the handle table; the run does not fail ('Memory leak detected' is a failure). Scale case: 300 (thorough 3000) rounds of seven script-implemented commands (flat, nested, failing) in one run: afterwards the variables are exactly the script's own and no list equal to the argument list of one of the calls remains in the handle table. The caller's collections name each other (an item of the array is the handle of the set, an item of the set the handle of another array, a key of the map the handle of the array), so a command that releases a working copy together with what its items name destroys a caller's collection";
 pub const ASSUMPTIONS: &[&str] = &["arguments are passed through caller variables p1..p3", "file-system effects of cp_glob / set_mode_glob are confined to a scratch working directory and not part of this property"];
 pub const EXHAUSTIVE: bool = true;
 pub const WALL_CAP_S: (u64, u64) = (58, 1700);
